@@ -44,6 +44,19 @@
                                           n-th handler invocation: handler hd ran (0 = client transport),
                                           m = token and payload type it was given, h = header its context reports
 
+  Further commands:
+      mw.run … <m0>,<c0>,<op0>,<hm>          hm := 0 (HdrMode.entry, default) | 1 (HdrMode.core): where
+                                             the server makes the batch context (probed by the engine)
+      mw.both <mchain> <ichain> <core> <m0>,<c0>,<op0>,<hm>
+                                             message chain (stage ids 1, 2, …) AND item chain (stage ids
+                                             101, 102, …) installed; answer as mw.run
+      mw.items <chain> <core> <c0>,<h0> <tok>@<op>{;<tok>@<op>}
+                                             one batch of several items through the item chain
+                                             → ok <resp>/<err>{;<resp>/<err>} <events>
+      mw.conc <kind> <chain> <core> <m0>,<c0>,<op0> <e0>{,<ei>}
+                                             `runImplP` under interference: the shared cell holds e(n mod len)
+                                             after the n-th event; answer as mw.run
+
   `mw.run` answers with `runImpl` (the model of the current code), `mw.spec` with `runSpec`,
   `mw.old` with `runOld` (the pre-fix code; used to demonstrate detection on an old worktree).
   Examples:  retry×3 then tag:  `mw.run client c.f.f/mt2.c e1,e2:o5:- 1,1`
@@ -113,8 +126,10 @@ private def parseStages : Nat → List String → Option (List Stage)
     let rest ← parseStages (id + 1) ss
     pure (st :: rest)
 
-def parseChain (s : String) : Option (List Stage) :=
-  if s = "-" then some [] else parseStages 1 (s.splitOn "/")
+def parseChainFrom (first : Nat) (s : String) : Option (List Stage) :=
+  if s = "-" then some [] else parseStages first (s.splitOn "/")
+
+def parseChain (s : String) : Option (List Stage) := parseChainFrom 1 s
 
 private def parseOut (s : String) : Option Out :=
   match s.toList with
@@ -183,6 +198,63 @@ private def runWith (f : Kind → List Stage → Core → Msg → Nat → Run) (
 
 def run (f : Kind → List Stage → Core → Msg → Nat → Run) (arg : String) : String := runWith f arg
 
+def parseHm : Nat → Option HdrMode
+  | 0 => some .entry
+  | 1 => some .core
+  | _ => none
+
+/-- `mw.run` with the optional header mode. -/
+def runH (arg : String) : String :=
+  match arg.splitOn " " with
+  | [k, ch, co, ini] =>
+    match (ini.splitOn ",").mapM (·.toNat?) with
+    | some [m0, c0, op0, hm] =>
+      match parseKind k, parseChain ch, parseCore co, parseHm hm with
+      | some k, some chain, some core, some hm => renderRun (runImplH hm k chain core ⟨m0, op0⟩ c0)
+      | _, _, _, _ => "bad-op"
+    | _ => runWith runImpl arg
+  | _ => runWith runImpl arg
+
+def runBothCmd (arg : String) : String :=
+  match arg.splitOn " " with
+  | [mch, ich, co, ini] =>
+    match (ini.splitOn ",").mapM (·.toNat?) with
+    | some [m0, c0, op0, hm] =>
+      match parseChain mch, parseChainFrom 101 ich, parseCore co, parseHm hm with
+      | some mchain, some ichain, some core, some hm =>
+        renderRun (runBoth hm mchain ichain core ⟨m0, op0⟩ c0)
+      | _, _, _, _ => "bad-op"
+    | _ => "bad-op"
+  | _ => "bad-op"
+
+private def parseMsg (s : String) : Option Msg :=
+  match s.splitOn "@" with
+  | [t, o] => do pure ⟨← t.toNat?, ← o.toNat?⟩
+  | _ => none
+
+def runItemsCmd (arg : String) : String :=
+  match arg.splitOn " " with
+  | [ch, co, ini, items] =>
+    match (ini.splitOn ",").mapM (·.toNat?), parseChain ch, parseCore co,
+        (items.splitOn ";").mapM parseMsg with
+    | some [c0, h0], some chain, some core, some items =>
+      let x := runBatchItems chain core h0 c0 items
+      "ok " ++ (if x.1.isEmpty then "-" else ";".intercalate (x.1.map renderR)) ++ " " ++
+        (if x.2.isEmpty then "-" else ",".intercalate (x.2.map renderEvent))
+    | _, _, _, _ => "bad-op"
+  | _ => "bad-op"
+
+def runConcCmd (arg : String) : String :=
+  match arg.splitOn " " with
+  | [k, ch, co, ini, envs] =>
+    match (ini.splitOn ",").mapM (·.toNat?), (envs.splitOn ",").mapM (·.toNat?),
+        parseKind k, parseChain ch, parseCore co with
+    | some [m0, c0, op0], some es, some k, some chain, some core =>
+      let env : Nat → Nat := fun n => es.getD (n % (max es.length 1)) 0
+      renderRun (runImplP env k chain core ⟨m0, op0⟩ c0)
+    | _, _, _, _, _ => "bad-op"
+  | _ => "bad-op"
+
 end Driver.Mw
 
 namespace Driver
@@ -190,7 +262,10 @@ namespace Driver
 /-- `none` = command not handled here. -/
 def handleMiddleware (cmd arg : String) : Option String :=
   match cmd with
-  | "mw.run" => some (Mw.run runImpl arg)
+  | "mw.run" => some (Mw.runH arg)
+  | "mw.both" => some (Mw.runBothCmd arg)
+  | "mw.items" => some (Mw.runItemsCmd arg)
+  | "mw.conc" => some (Mw.runConcCmd arg)
   | "mw.spec" => some (Mw.run runSpec arg)
   | "mw.old" => some (Mw.run runOld arg)
   | _ => none
